@@ -1,5 +1,6 @@
 import Asn1Verif.Uper.Sexpr
 import Asn1Verif.Uper.Impl
+import Asn1Verif.Uper.Scope
 import Asn1Verif.X691.Encode
 /- line protocol, stream `uper` (L2) -/
 namespace Driver.UperStream
@@ -48,6 +49,88 @@ def many (items : List (Ty × Val)) : String :=
     let (outs, pos) := rd items 0 []
     String.intercalate " " (["ok", bitsToString bits] ++ outs ++ [toString (bits.length - pos)])
 
+/-! ### every request of the ops `enc`, `rt`, `dec`, `conf`, `cross`, `many` is answered by the
+     compositional mirror (`Uper/Impl.lean`: `enc`, `dec`, `many`) AND by the faithful scope machine
+     (`Uper/Scope.lean`: `encS`, `decS`, `manyS`); the two answers have to be the same -/
+
+def encS (t : Ty) (v : Val) : Outcome Bits :=
+  match Scope.encode t v with
+  | .ok w => .ok w.bits
+  | .err k => .err k
+  | .panic => .panic
+
+def decS (t : Ty) (bits : Bits) (pos : Nat) : Outcome (Val × Nat) :=
+  match Scope.decode t bits pos with
+  | .ok (v, r) => .ok (v, r.pos)
+  | .err k => .err k
+  | .panic => .panic
+
+def decAnswer (r : Outcome (Val × Nat)) : String :=
+  renderOr (fun (p : Val × Nat) => valToSx p.1 ++ " " ++ toString p.2) r
+
+def rtWith (E : Ty → Val → Outcome Bits) (D : Ty → Bits → Nat → Outcome (Val × Nat)) (t : Ty) (v : Val) :
+    String :=
+  match E t v with
+  | .ok bits =>
+    match D t bits 0 with
+    | .ok (v', p) => "ok " ++ bitsToString bits ++ " " ++ valToSx v' ++ " " ++ toString (bits.length - p)
+    | .err k => "ok " ++ bitsToString bits ++ " readerr:" ++ toString k ++ " -"
+    | .panic => "ok " ++ bitsToString bits ++ " readpanic -"
+  | .err .illTyped => "bad-op"
+  | .err k => "err " ++ toString k
+  | .panic => "panic"
+
+def crossWith (E : Ty → Val → Outcome Bits) (D : Ty → Bits → Nat → Outcome (Val × Nat)) (tw : Ty) (v : Val)
+    (tr : Ty) (sentinel : Bits) : String :=
+  match E tw v with
+  | .ok bits =>
+    let r := match D tr (bits ++ sentinel) 0 with
+      | .ok (v', p) => valToSx v' ++ " " ++ toString p
+      | .err k => "readerr:" ++ toString k ++ " -"
+      | .panic => "readpanic -"
+    "ok " ++ bitsToString bits ++ " " ++ r
+  | .err .illTyped => "bad-op"
+  | .err k => "err " ++ toString k
+  | .panic => "panic"
+
+/-- one writer, one reader -/
+def manyS (items : List (Ty × Val)) : String :=
+  let rec wr (items : List (Ty × Val)) (w : Scope.W) : Outcome Scope.W :=
+    match items with
+    | [] => .ok w
+    | (t, v) :: r =>
+      match Scope.write t v w with
+      | .ok w' => wr r w'
+      | .err k => .err k
+      | .panic => .panic
+  match wr items (Scope.W.fresh false) with
+  | .err .illTyped => "bad-op"
+  | .err k => "err " ++ toString k
+  | .panic => "panic"
+  | .ok w =>
+    let bits := w.bits
+    let rec rd (items : List (Ty × Val)) (r : Scope.R) (acc : List String) : List String × Nat :=
+      match items with
+      | [] => (acc.reverse, r.pos)
+      | (t, _) :: rest =>
+        match Scope.read t bits r with
+        | .ok (v, r') => rd rest r' (valToSx v :: acc)
+        | .err k => ((("readerr:" ++ toString k) :: acc).reverse, r.pos)
+        | .panic => (("readpanic" :: acc).reverse, r.pos)
+    let (outs, pos) := rd items { pos := 0, len := bits.length, scope := none } []
+    String.intercalate " " (["ok", bitsToString bits] ++ outs ++ [toString (bits.length - pos)])
+
+/-- a request of more than 24000 characters (a list of ≈ 2500 elements, a string of 12000
+    characters, an input of 24000 bits) is answered by the compositional mirror alone: both readers
+    are quadratic in the length of the input (`inp.drop pos`, `inp.length` per primitive,
+    `raw.drop` per character) and such requests (lists and strings of 16K+ items, there for the
+    fragmentation of the length determinant, which both models take from the same L1 functions)
+    keep the compositional mirror busy for 10–60 s -/
+def big (args : List String) : Bool := (args.map String.length).foldl (· + ·) 0 > 24000
+
+/-- `a`: the answer of the compositional mirror, `b`: the answer of the scope machine -/
+def same (a b : String) : String := if a == b then a else "scope-mismatch " ++ a ++ " | " ++ b
+
 def handle (args : List String) : String :=
   match args with
   | ["list"] => "skip"
@@ -57,7 +140,10 @@ def handle (args : List String) : String :=
     match rest r with
     | some [t, v] =>
       match tyOfSx t, valOfSx v with
-      | some t, some v => if t.consistent then renderOr bitsToString (enc t v) else "inconsistent-descriptor"
+      | some t, some v =>
+        if !t.consistent then "inconsistent-descriptor"
+        else if big args then renderOr bitsToString (enc t v)
+        else same (renderOr bitsToString (enc t v)) (renderOr bitsToString (encS t v))
       | _, _ => "bad-op"
     | _ => "bad-op"
   | ["charset", cs, lo, hi] =>
@@ -81,7 +167,8 @@ def handle (args : List String) : String :=
       match tyOfSx t, valOfSx v with
       | some t, some v =>
         if t.consistent then
-          renderOr bitsToString (enc t v) ++ " x691:" ++
+          (if big args then renderOr bitsToString (enc t v)
+           else same (renderOr bitsToString (enc t v)) (renderOr bitsToString (encS t v))) ++ " x691:" ++
             (match X691.encode t v with | some b => bitsToString b | none => "none")
         else "inconsistent-descriptor"
       | _, _ => "bad-op"
@@ -109,9 +196,9 @@ def handle (args : List String) : String :=
     | some [t, Sx.atom b] =>
       match tyOfSx t, parseBits b with
       | some t, some bits =>
-        if t.consistent then
-          renderOr (fun (p : Val × Nat) => valToSx p.1 ++ " " ++ toString p.2) (dec t bits 0)
-        else "inconsistent-descriptor"
+        if !t.consistent then "inconsistent-descriptor"
+        else if big args then decAnswer (dec t bits 0)
+        else same (decAnswer (dec t bits 0)) (decAnswer (decS t bits 0))
       | _, _ => "bad-op"
     | _ => "bad-op"
   | "rt" :: _ :: r =>
@@ -119,16 +206,9 @@ def handle (args : List String) : String :=
     | some [t, v] =>
       match tyOfSx t, valOfSx v with
       | some t, some v =>
-        if !t.consistent then "inconsistent-descriptor" else
-        match enc t v with
-        | .ok bits =>
-          match dec t bits 0 with
-          | .ok (v', p) => "ok " ++ bitsToString bits ++ " " ++ valToSx v' ++ " " ++ toString (bits.length - p)
-          | .err k => "ok " ++ bitsToString bits ++ " readerr:" ++ toString k ++ " -"
-          | .panic => "ok " ++ bitsToString bits ++ " readpanic -"
-        | .err .illTyped => "bad-op"
-        | .err k => "err " ++ toString k
-        | .panic => "panic"
+        if !t.consistent then "inconsistent-descriptor"
+        else if big args then rtWith enc dec t v
+        else same (rtWith enc dec t v) (rtWith encS decS t v)
       | _, _ => "bad-op"
     | _ => "bad-op"
   | "many" :: r =>
@@ -144,7 +224,8 @@ def handle (args : List String) : String :=
           pure ((t, v) :: r)
         | _ => none
       match triples items with
-      | some l => if l.isEmpty then "bad-op" else if l.all (·.1.consistent) then many l else "inconsistent-descriptor"
+      | some l => if l.isEmpty then "bad-op" else if l.all (·.1.consistent) then
+          (if big args then many l else same (many l) (manyS l)) else "inconsistent-descriptor"
       | none => "bad-op"
     | none => "bad-op"
   | "cross" :: r =>
@@ -152,17 +233,9 @@ def handle (args : List String) : String :=
     | some [_, tw, v, _, tr, Sx.atom s] =>
       match tyOfSx tw, valOfSx v, tyOfSx tr, parseBits s with
       | some tw, some v, some tr, some sentinel =>
-        if !(tw.consistent && tr.consistent) then "inconsistent-descriptor" else
-        match enc tw v with
-        | .ok bits =>
-          let r := match dec tr (bits ++ sentinel) 0 with
-            | .ok (v', p) => valToSx v' ++ " " ++ toString p
-            | .err k => "readerr:" ++ toString k ++ " -"
-            | .panic => "readpanic -"
-          "ok " ++ bitsToString bits ++ " " ++ r
-        | .err .illTyped => "bad-op"
-        | .err k => "err " ++ toString k
-        | .panic => "panic"
+        if !(tw.consistent && tr.consistent) then "inconsistent-descriptor"
+        else if big args then crossWith enc dec tw v tr sentinel
+        else same (crossWith enc dec tw v tr sentinel) (crossWith encS decS tw v tr sentinel)
       | _, _, _, _ => "bad-op"
     | _ => "bad-op"
   | _ => "bad-op"
